@@ -24,7 +24,7 @@ TITLE = 'Written text files follow the published format; conformant files load a
 GEN = ['Headers', 'SpecColumns', 'FileNames', 'RecordSchemas']
 RULE = ('each case = a generated dataset, a layout seed and what the process loaded just before (nothing / a 1.0 directory / a refused 2.0 directory) (columns comment first / missing / after some data rows); all 14 top-level files, the three descriptor files and points3d are '
         're-laid-out with per-line random choices (0-3 blanks of space/tab on each side of each field, comment/blank lines between '
-        'rows, row order shuffled where the format does not number rows, LF/CRLF/CR per line, 0-3 leading zeros on timestamps, point '
+        'rows, row order shuffled where the format does not number rows, LF/CRLF/CR per line, 0-3 leading zeros on timestamps, other decimal spellings of the same pose / record floats (1. .5 +1.0 1E0 1.00), point '
         'ids and feature ids); distinct non-trivial = distinct (dataset, layout seed) with at least 5 files')
 ASSUMPTIONS = [
     'specreader.py is my transcription of the specification (column types, comment / blank rules); the column ORDER is not trusted: '
@@ -66,6 +66,43 @@ def zero_pad(tok, rng):
     return ('-' + '0' * k + tok[1:]) if tok.startswith('-') else ('0' * k + tok)
 
 
+FLOAT_COLS = {'trajectories.txt': list(range(2, 9)), 'rigs.txt': list(range(2, 9)), 'records_gnss.txt': [2, 3, 4],
+              'records_accelerometer.txt': [2, 3, 4], 'records_gyroscope.txt': [2, 3, 4], 'records_magnetic.txt': [2, 3, 4]}
+
+
+def respell(tok, rng):
+    """ another decimal spelling of the same number (the format says `float`, not `the repr of CPython`): '1.' for '1.0', '.5' for
+    '0.5', an explicit '+', 'E' for 'e', more zeros; kept only when it denotes bit for bit the same double """
+    if tok == '' or rng.random() < 0.6:
+        return tok
+    try:
+        want = float(tok).hex()
+    except ValueError:
+        return tok
+    cands = []
+    if tok.endswith('.0'):
+        cands += [tok[:-1], tok + '0', tok[:-2] + '.000']
+    body = tok.lstrip('-')
+    sign = tok[:len(tok) - len(body)]
+    if body.startswith('0.') and len(body) > 2:
+        cands.append(sign + body[1:])
+    if not sign:
+        cands.append('+' + tok)
+    if 'e' in tok:
+        cands.append(tok.replace('e', 'E'))
+    elif '.' in tok:
+        cands.append(tok + 'e0')
+    cands = [c for c in cands if _hex_or_none(c) == want]
+    return rng.choice(cands) if cands else tok
+
+
+def _hex_or_none(t):
+    try:
+        return float(t).hex()
+    except ValueError:
+        return None
+
+
 def relayout(rel, text, rng):
     """ returns (spec lines for the model, eols) of a conformant re-rendering of one written file """
     fname = os.path.basename(rel)
@@ -95,6 +132,9 @@ def relayout(rel, text, rng):
         for i in ic:
             if i < len(fields):
                 fields[i] = zero_pad(fields[i], rng)
+        for i in FLOAT_COLS.get(fname, []):
+            if i < len(fields):
+                fields[i] = respell(fields[i], rng)
         lines.append(['d', [blanks(rng) for _ in fields], [blanks(rng) for _ in fields], fields])
     if later_at is not None and later_at == len(rows):
         for h in header[1:]:
